@@ -61,6 +61,7 @@ type Stmt struct {
 	Kind  string   `json:"kind"`            // template label
 	Mut   string   `json:"mut,omitempty"`   // the one mutating binding the statement calls ("" = read-only)
 	Calls []string `json:"calls,omitempty"` // every binding the statement's text calls (names of Bindings)
+	Args  []string `json:"args,omitempty"`  // argument kinds the statement passes to its mutating binding (histogram only)
 	Raise bool     `json:"raise,omitempty"`
 	Safe  bool     `json:"safe,omitempty"` // the whole statement is wrapped in pcall: it cannot stop the script
 	// Raise: the statement unconditionally raises an unprotected error at top
